@@ -20,7 +20,7 @@ ASSUMPTIONS = [
 
 
 def gen_cases(tier, seed):
-    n = 1600 if tier == "quick" else 40000
+    n = 1600 if tier == "quick" else 25000
     maxcalls = 40 if tier == "quick" else 110
     out = []
     for i in range(n):
